@@ -161,6 +161,32 @@ def gen_x(rng, xmax):
     return rng.uniform(min(5.0, xmax), xmax) if xmax > 5 else loguni(rng, 0.1, xmax)
 
 
+EXP_OVERFLOW = 700.0   # exp() of a double overflows at 709.78; the layered-sphere recursion forms exp(Im(m_l x_l))
+
+
+def nonfinite_key(desc, cls):
+    """key of a non-finite cross section.  The recorded finding is specific: a LAYERED sphere with a layer whose
+    Im(n_l / n_medium) * k * r_l exceeds the overflow threshold of exp().  Any other non-finite value keeps the
+    generic key and is reported as a violation."""
+    try:
+        if desc.get("layers", 1) > 1:
+            k = 2 * math.pi / (desc["wl"] / desc["nm"])
+            ims = []
+            for n, r in zip(desc["n"], desc["r"]):
+                im = n["im"] if isinstance(n, dict) else complex(n).imag
+                ims.append(im / desc["nm"] * k * r)
+            # the recursion evaluates layer l at its inner radius too
+            for (n, r) in zip(desc["n"][1:], desc["r"][:-1]):
+                im = n["im"] if isinstance(n, dict) else complex(n).imag
+                ims.append(im / desc["nm"] * k * r)
+            if max(ims) > EXP_OVERFLOW:
+                return "mie:nonfinite:layered:exp-overflow"
+    except Exception:   # noqa
+        pass
+    return "mie:nonfinite:" + cls
+
+
+
 def gen_sphere(rng, xmax, layered_p=0.25, kind=None):
     """-> (Sphere, nm, wl, k, x_outer, kind, description dict)"""
     import numpy as np
@@ -449,7 +475,7 @@ def stage_explore_mie(ctx):
         data = dict(kind="xmie", sphere=desc, pol=pol, cross_sections=[cscat, cabs, cext, g])
         cls = "%s:%s" % ("layered" if desc["layers"] > 1 else "uniform", kind)
         if not all(math.isfinite(v) for v in (cscat, cabs, cext, g)):
-            ctx.violation("mie:nonfinite:" + cls, "calc_cross_sections returns a non-finite value", data)
+            ctx.violation(nonfinite_key(desc, cls), "calc_cross_sections returns a non-finite value", data)
             continue
         if not STAT.see("split", abs(cext - cscat - cabs), TOL_SPLIT * abs(cext)):
             ctx.violation("mie:split:" + cls, "cext != cscat + cabs", data)
@@ -507,9 +533,14 @@ def stage_layered_small(ctx):
         ctx.nontriv(("laysmall", nl, round(math.log10(x), 1)))
         data = dict(kind="xmie", sphere=dict(n=ns, r=rs, nm=nm, wl=wl, x=x, layers=nl), pol=(1, 0),
                     cross_sections=[cscat, cabs, cext, g])
-        if not (cext > 0 and abs(cabs) <= TOL_LAYSMALL * cext):
-            ctx.violation("mie:layered-small-x", "layered sphere, real indices, size parameter <= 0.05: absorption "
-                          "does not vanish (|cabs| > 1e-3 cext) or extinction <= 0", data)
+        if not (math.isfinite(cext) and math.isfinite(cscat) and cscat > 0):
+            ctx.violation("mie:layered-small-x:cscat", "layered sphere, real indices, size parameter <= 0.05: scattering cross "
+                          "section not positive / not finite", data)
+        elif not (cext > 0 and abs(cabs) <= TOL_LAYSMALL * cext):
+            # recorded finding: Re(a_n) is lost to rounding in the layer recursion, so cext (sum of Re a_n, b_n) is
+            # wrong while cscat (sum of |a_n|^2) is right; reported under its own key
+            ctx.violation("mie:layered-small-x:cext-rounding", "layered sphere, real indices, size parameter <= 0.05: absorption "
+                          "does not vanish (|cabs| > 1e-3 cext) or extinction <= 0 while cscat is positive", data)
 
 
 def stage_layered_corners(ctx):
@@ -548,7 +579,7 @@ def stage_layered_corners(ctx):
         ctx.count("layered-overflow-corner")
         data = dict(kind="xmie", sphere=dict(n=ns, r=rs, nm=nm, wl=wl, x=x, layers=2), pol=(1, 0), cross_sections=vals)
         if not all(math.isfinite(v) for v in vals):
-            ctx.violation("mie:nonfinite:layered:strong", "calc_cross_sections returns a non-finite value", data)
+            ctx.violation(nonfinite_key(data["sphere"], "layered:strong"), "calc_cross_sections returns a non-finite value", data)
         elif not (abs(vals[2] - vals[0] - vals[1]) <= TOL_SPLIT * vals[2] and vals[1] >= 0 and vals[0] > 0
                   and -1 <= vals[3] <= 1 and 1.5 < vals[2] / (np.pi * rs[1] ** 2) < 2.5):
             ctx.violation("mie:layered-large-absorbing", "large absorbing layered sphere: energy bookkeeping, ranges or "
